@@ -1008,5 +1008,35 @@ func corpus() []Scen {
 			out = append(out, s)
 		}
 	}
+	// star, two forks above the require height, several small requests per fork: the syncing centre has unsynced
+	// peers on fork X (12 blocks) and on fork Y (8 blocks), both hanging on the trunk tip the centre holds;
+	// with WithMaxSendBlocks(5) X needs three requests and every unsynced peer is a worker, so a Y peer is asked
+	// for X's first request (and answers with Y blocks, which attach to the same checkpoint). Which worker gets
+	// which request is up to the scheduler: repeated. Separated works: everybody must end on X.
+	for rep := 0; rep < 5; rep++ {
+		shape := []int{0, 1}      // trunk: nodes 1, 2
+		for k := 0; k < 12; k++ { // X: nodes 3..14
+			if k == 0 {
+				shape = append(shape, 2)
+			} else {
+				shape = append(shape, 2+k)
+			}
+		}
+		for k := 0; k < 8; k++ { // Y: nodes 15..22
+			if k == 0 {
+				shape = append(shape, 2)
+			} else {
+				shape = append(shape, 14+k)
+			}
+		}
+		s := Scen{Kind: "net", Stream: "exact", Seed: uint64(8100 + rep), Regime: []int{2, 2, 5, 2, 5}[rep], Announce: true,
+			Opts: chaingen.GenOpts{Shape: shape, TxPerBlock: rep % 2}, Batch: 5}
+		s.Tips = []int{2, 14, 22, 14, 22}
+		s.Edges = [][2]int{{0, 1}, {0, 2}, {3, 0}, {4, 0}}
+		if rep%2 == 1 {
+			s.Edges = [][2]int{{2, 0}, {1, 0}, {0, 4}, {0, 3}}
+		}
+		out = append(out, s)
+	}
 	return out
 }
